@@ -45,3 +45,9 @@ func runIsolated(f func()) bool
 
 // thorough reports whether the check runs in the thorough tier (deeper bounds).
 func thorough() bool
+
+// bOr / bAnd / bImplies are non-short-circuit boolean connectives: they build one
+// symbolic condition instead of forking the path the way || and && do.
+func bOr(a, b bool) bool
+func bAnd(a, b bool) bool
+func bImplies(a, b bool) bool
